@@ -751,6 +751,70 @@ func runC20(c *Ctx) error {
 		r.run(x.cap, ops, true, fmt.Sprintf("random #%d cap=%d calls=%d period=%d amp=%d clone=%v", i, x.cap, x.n, x.period, x.amp, x.clone))
 		c.Sum.Distribution[fmt.Sprintf("random sequences of %s calls", lenClass(x.n))]++
 	}
+	// a large arena: more live elements than 2^16 (handles are 32-bit indices into the arena), observed once per phase
+	{
+		large := 70000
+		if !quick {
+			large = 400000
+		}
+		tag := fmt.Sprintf("large arena of %d live elements", large)
+		what := func() (what string) {
+			defer func() {
+				if r := recover(); r != nil {
+					what = fmt.Sprintf("panic: %v", r)
+				}
+			}()
+			d := gws.NewVerifDeque(0)
+			hs := make([]uint32, large)
+			seen := make(map[uint32]bool, large)
+			for i := 0; i < large; i++ {
+				hs[i] = d.PushBack(i)
+				if hs[i] == 0 || seen[hs[i]] {
+					return fmt.Sprintf("PushBack #%d returned handle %d (nil or already live)", i, hs[i])
+				}
+				seen[hs[i]] = true
+			}
+			if d.Len() != large {
+				return fmt.Sprintf("Len() = %d after %d PushBack calls", d.Len(), large)
+			}
+			for _, i := range []int{0, 1, 65534, 65535, 65536, 65537, large - 1} {
+				if v := d.ValueAt(hs[i]); v != i {
+					return fmt.Sprintf("element pushed as #%d reads %d through its handle", i, v)
+				}
+			}
+			addrs, vals := d.Items()
+			if len(vals) != large {
+				return fmt.Sprintf("Range visits %d elements of %d", len(vals), large)
+			}
+			for i := range vals {
+				if vals[i] != i || addrs[i] != hs[i] {
+					return fmt.Sprintf("position %d holds value %d / handle %d, pushed %d / %d", i, vals[i], addrs[i], i, hs[i])
+				}
+			}
+			// remove every third through its handle, then drain from the front
+			kept := 0
+			for i := 0; i < large; i += 3 {
+				d.Remove(hs[i])
+			}
+			for i := 0; i < large; i++ {
+				if i%3 == 0 {
+					continue
+				}
+				if v := d.PopFront(); v != i {
+					return fmt.Sprintf("after removing every third element, PopFront #%d gives %d, want %d", kept, v, i)
+				}
+				kept++
+			}
+			if d.Len() != 0 {
+				return fmt.Sprintf("Len() = %d after draining", d.Len())
+			}
+			return ""
+		}()
+		if what != "" {
+			c.oracleFail(tag+": "+what, "deque-vs-plain-sequence", map[string]any{"tag": tag})
+		}
+		c.count(tag, true, "kind=large-arena")
+	}
 	c.Sum.Distribution["exhaustive sequences"] = exhaustive
 	c.Sum.Distribution["random sequences"] = r.seqs - exhaustive
 	c.Sum.Distribution["calls total"] = r.calls
